@@ -132,6 +132,7 @@ progrt = { path = "%s/harness/progrt" }
 scale-info = { path = "/repo", features = ["derive", "serde", "decode", "bit-vec"] }
 scale = { package = "parity-scale-codec", version = "3", features = ["derive", "bit-vec"] }
 bitvec = "1"
+serde = { version = "1", features = ["derive"] }
 ''' % (c, VERIF))
             write_if_changed(os.path.join(cd, 'src', 'prelude.rs'), PRELUDE)
             main = ['#![allow(dead_code, unused_imports)]', 'mod prelude;']
